@@ -149,6 +149,36 @@ def _true():
     return True
 
 
+class SimFilter:
+    """A simulator-owned filter following the documented async filter protocol:
+    ``filter_async`` returns what ``__call__`` returns after a seeded suspension
+    (none of liquid's own filters suspends, so this is what lets a task switch in
+    the middle of a filter chain)."""
+
+    def __init__(self, loop_ref, kind):
+        self.loop_ref = loop_ref
+        self.kind = kind
+
+    def _apply(self, left, args):
+        if self.kind == "append":
+            return "%s%s" % (left, args[0] if args else "")
+        return left
+
+    def __call__(self, left, *args):
+        return self._apply(left, args)
+
+    async def filter_async(self, left, *args):
+        loop = self.loop_ref[0]
+        if loop is not None:
+            await loop.latency("filter." + self.kind)
+        return self._apply(left, args)
+
+
+def add_sim_filters(env, loop_ref):
+    env.add_filter("slow", SimFilter(loop_ref, "id"))
+    env.add_filter("slow_append", SimFilter(loop_ref, "append"))
+
+
 def outcome(fn):
     """("ok", value) | ("err", exception class name) for a zero-arg callable."""
     try:
